@@ -27,7 +27,7 @@ RULE = (
 ASSUMPTIONS = [
     "column is 0-based (as the repository's own two position tests fix it); lines are separated by LF; a lone CR is accepted either way",
 ]
-POS = re.compile(r", line (-?\d+), column (-?\d+)$")
+POS = re.compile(r"line\s*:?\s*(-?\d+)\D{1,12}col(?:umn)?\s*:?\s*(-?\d+)")
 BREAKS = ["\n", "\r\n", " \n ", "\n\n"]
 
 
@@ -111,7 +111,16 @@ def check_query(text):
     if getattr(tok, "query", None) != text:
         return violation("token-of-other-text", case, "token.query is the query text",
                          {"token_query": repr(getattr(tok, "query", None))[:80]}, "bad-position"), True
-    m = POS.search(msg)
+    ms = POS.findall(msg.lower() if "line" not in msg else msg)
+    m = None
+    if ms:
+        class _M:  # last occurrence
+            def __init__(self, g):
+                self.g = g
+
+            def group(self, i):
+                return self.g[i - 1]
+        m = _M(ms[-1])
     if not m:
         return violation("no-position-in-message", case, "message ends with line/column", {"msg": msg[:160]},
                          "bad-position"), True
